@@ -117,6 +117,34 @@ PROPS = {
         "assumptions": ["grid spacing exactly representable (float32 cast of dir is the identity)", "shapes beyond the listed ones are not covered"],
         "technique": "contract-based symbolic execution of the real function, bounded in grid shape (all values), z3",
     },
+    "C08": {
+        "level": "other",
+        "engines": [{"kind": "pyse"}],
+        "explanation": "regrid_spec / SpecArray.rotate are executed on proxies for fixed small grids (3 frequencies x 4 directions, 3 targets per "
+        "dimension) with symbolic values. PROVED (z3, all values of that shape): the result carries exactly the requested coordinates in the "
+        "requested order and keeps the other coordinates and the dimension order; frequency regridding without the variance factor equals linear "
+        "interpolation with the (0,0) anchor below the first frequency and zero above the last. BOUNDED (concrete replays on the real code with "
+        "independent oracles, every run): circular linear interpolation across the 0/360 seam for rotated / descending stored directions, identity "
+        "on the source grid, Hs conservation with maintain_m0, non-negativity, whole-bin rotation = circular shift, rotation by any angle keeps "
+        "coordinates and Hs.",
+        "trusted_base": ["interp / sortby / concat / unique contracts of engine/pyse (concrete extents only)"],
+        "assumptions": ["target directions in [0,360)", "Hs conservation stated where the unscaled result has energy (otherwise the code returns NaN)"],
+        "technique": "contract-based symbolic execution of the real function (bounded shape) for coordinates and frequency interpolation; run-time contracts with independent oracles for the rest (bounded)",
+    },
+    "C05": {
+        "level": "other",
+        "engines": [{"kind": "pyse", "include_props": ["C01", "C02", "C16"]}],
+        "explanation": "Dimension order: every statistic of C01/C02 is proved for the orders (pos,freq,dir), (dir,pos,freq), (freq,dir) and 1-D "
+        "variants (symbolic extents). Start/orientation of the stored direction sequence: the direction bin width is proved equal to the grid "
+        "spacing for every uniform full-circle grid stored from any start index, ascending or descending (all N, z3), and invariant under "
+        "relabelling by any angle. Memory layout: partition.watershed is proved to hand the C routine a C-contiguous float32 array with the same "
+        "values for C, Fortran and strided inputs (ghost layout flag). Smoothing/regridding for rotated and descending storage: C16/C08 contracts "
+        "(bounded shape).",
+        "trusted_base": ["ghost layout flag propagation in engine/pyse/arrays.py (astype keeps layout, ascontiguousarray makes C order)"],
+        "assumptions": ["invariance of sums under a permutation of the stored directions is not proved symbolically (it holds for the "
+                        "specification by WS.sum_perm); concrete replays use rolled and descending direction storage every run",
+                        "dtype width: float32 vs float64 not distinguished (reals)"],
+    },
 }
 
 _PENDING = "not yet brought under contract in the current build round (see DESIGN.md section 8 for the order of work)"
